@@ -11,7 +11,12 @@ LEVEL_TEXT = ("TLC checks, for every box / pair of boxes / point of bounded inte
               "enclosing box with the default-constructed empty box as identity, set intersection, disjoint <=> empty intersection <=> not "
               "touchingOrOverlapping, unique nearest point, size / volume as cell counts, centre as reflection point, translation and scaling "
               "as images); TLC then enumerates the same lattices completely and emits one case per input with the expected values, and every "
-              "case is evaluated on the real range_t<T> / box_t<T,N> / box3fa for T in {int, float, double} and compared exactly; xfmBounds "
+              "case is evaluated on the real range_t<T> / box_t<T,N> / box3fa / box3ia for T in {int, float, double} and compared exactly; the "
+              "operations that only compare coordinates (contains, extend, clamp, intersectionOf, disjoint, touchingOrOverlapping, empty) are "
+              "also evaluated on int64 / uint32 / int16 / uint8 boxes and on coordinates f(k) for strictly increasing maps f (neighbourhoods of "
+              "2^31, 2^24, 2^15, of the sign bit of unsigned types and multiples of 2^32; non-dyadic, subnormal and huge floats) - TLC checks that "
+              "these operations commute with such maps; size and centre of integer boxes with coordinates beyond 2^24; member and free center() "
+              "and default / explicit ray range are compared with each other; xfmBounds "
               "must contain the exact images (computed by TLC) of all lattice points of the box for a family of integer affine maps; "
               "intersectRayBox intervals recorded from the real code are validated by TLC against exact rational point membership at probe "
               "parameters; seeded random long executions of a real box object are validated by TLC against the trace specification")
@@ -22,22 +27,32 @@ LEVEL_NOTE = ("bounded and exact-arithmetic only: lattices of 3-6 values per axi
               "exhibits the counter-example in BoxAlgebraMC); size / center / area / volume / clamp only for non-empty boxes, integer center() "
               "only for even sums, scaling only by non-negative factors (a negative factor inverts the bounds); intersectRayBox: integer origins, "
               "direction components in -2..2, probes at least 2^-13 away from every face (band 2^-14 = 2^-18 relative to 16), grazing rays "
-              "unconstrained; xfmBounds: containment only, tightness is reported as a note; trusted: TLC, the driver's mapping of the model's "
+              "unconstrained; rays against boxes without points (default-constructed empty, inverted): the returned range must be empty() - its "
+              "bounds are free; xfmBounds: containment only, tightness is "
+              "reported as a note; arithmetic operations (size, centre, area, volume, scale, translate) are not taken to the type limits (their "
+              "sums / products would leave the element type); trusted: TLC, the driver's mapping of the model's "
               "+-INF to pos_inf / neg_inf and of interval ends to integers scaled by 2^16, g++")
 TECHNIQUE = ("TLA+ functional specification with set semantics; laws model-checked by TLC over the complete bounded lattice; constant-level case "
              "enumeration by TLC replayed on the real templates; TLC validation of recorded ray intervals and of recorded random executions")
 SPEC = os.path.join(VERIF, "spec", "math")
 
 VARIANTS = ["i", "f", "d", "fa"]
-TNAME = {"i": "int", "f": "float", "d": "double", "fa": "float"}
+TNAME = {"i": "int", "f": "float", "d": "double", "fa": "float", "ia": "int", "l": "int64", "ui": "uint32", "s": "int16", "uc": "uint8"}
+PADDED = ("fa", "ia")
+# (element type, value map): the comparison-only operations on coordinates f(k), f strictly increasing (see the driver and
+# LawMonotone* in BoxAlgebra.tla): type limits / sign bits / 2^24 / 2^32, non-dyadic, subnormal, huge values
+MAPPED_QUICK = [("i", "far"), ("f", "far"), ("f", "tenth"), ("f", "sub"), ("f", "huge"), ("ui", "far"), ("uc", "far"), ("s", "far"), ("l", "far")]
+MAPPED_THOROUGH = MAPPED_QUICK + [("d", "far"), ("d", "tenth"), ("d", "sub"), ("d", "huge"), ("fa", "sub"), ("ia", "far")]
+COMPARE_ONLY = ("Points", "Pair", "PairInv")
 
 
-def type_name(variant, d):
+def type_name(variant, d, vmap="id"):
+    sfx = "" if vmap == "id" else "@" + vmap
     if d == 1:
-        return "range_t<%s>" % TNAME[variant]
-    if variant == "fa":
-        return "box_t<float,3,aligned>"
-    return "box_t<%s,%d>" % (TNAME[variant], d)
+        return "range_t<%s>%s" % (TNAME[variant], sfx)
+    if variant in PADDED:
+        return "box_t<%s,3,aligned>%s" % (TNAME[variant], sfx)
+    return "box_t<%s,%d>%s" % (TNAME[variant], d, sfx)
 
 
 class Sub:
@@ -129,8 +144,10 @@ def gen_jobs(quick):
             ("pairinv", 2, -1, 1, "all", lv), ("pairinv", 3, 0, 1, "all", lv),
             ("vec", 1, -2, 3, "all", lv), ("vec", 2, -1, 2, "all", lv), ("vec", 3, -1, 1, "all", lv), ("vec", 4, 0, 1, "all", lv),
             ("xfm", 3, 0, 1, "all", lv),
+            ("big", 1, 0, 0, "all", lv), ("big", 2, 0, 0, "all", lv), ("big", 3, 0, 0, "all", lv), ("big", 4, 0, 0, "all", lv),
         ]
     return [
+        ("big", 1, 0, 0, "all", lv), ("big", 2, 0, 0, "all", lv), ("big", 3, 0, 0, "all", lv), ("big", 4, 0, 0, "all", lv),
         ("box", 1, -2, 3, "all", lv), ("box", 2, -2, 3, "all", lv), ("box", 3, -1, 1, "all", lv), ("box", 4, 0, 1, "all", lv),
         ("pair", 1, -2, 3, "all", lv), ("pair", 2, -2, 2, "all", lv), ("pair", 3, -1, 1, "all", lv), ("pair", 3, -1, 2, "cover", lv),
         ("pair", 4, 0, 1, "all", lv), ("pair", 4, -1, 1, "cover", lv),
@@ -144,8 +161,8 @@ def ray_jobs(quick):
     """mode = which of the ray boxes (one TLC run per box: the ray laws are checked on exactly the emitted cases)."""
     lv = 0 if quick else 1
     if quick:
-        return [("ray", 2, -2, 3, "0", lv)] + [("ray", 3, -1, 2, str(k), lv) for k in (1, 2, 3)]
-    return [("ray", 2, -3, 4, str(k), lv) for k in (1, 2, 3, 4)] + [("ray", 3, -1, 2, str(k), lv) for k in (1, 2, 3)]
+        return [("ray", 2, -2, 3, "0", lv)] + [("ray", 3, -1, 2, str(k), lv) for k in (1, 2, 3, 4, 5)]
+    return [("ray", 2, -3, 4, str(k), lv) for k in (1, 2, 3, 4)] + [("ray", 3, -1, 2, str(k), lv) for k in (1, 2, 3, 4, 5)]
 
 
 def run_gen(chk, job):
@@ -156,11 +173,12 @@ def run_gen(chk, job):
                                what="group %s d=%d axis %d..%d %s" % (g, d, lo, hi, mode))
     for c in cases:
         c["d"] = d
+        c["mode"] = mode
     return cases
 
 
 def model_check(chk):
-    r = tla.run_tlc(os.path.join(SPEC, "BoxAlgebraMC.tla"), os.path.join(SPEC, "BoxAlgebraMC.cfg"), workers=10 if chk.tier == "quick" else 12, timeout=1500,
+    r = tla.run_tlc(os.path.join(SPEC, "BoxAlgebraMC.tla"), os.path.join(SPEC, "BoxAlgebraMC.cfg"), workers=8 if chk.tier == "quick" else 10, timeout=1500,
                     env={"C05_TIER": chk.tier}, tag="c05-mc")
     chk.require_model_ok("BoxAlgebraMC/" + chk.tier, r, "laws: operations = set semantics for every box / pair / point of the lattices")
     return r
@@ -171,9 +189,13 @@ def model_check(chk):
 # ---------------------------------------------------------------------------------------------
 def applicable(case, variant):
     a, d = case["a"], case["d"]
+    if a == "MeasureBig" and variant in ("f", "fa"):
+        return False              # coordinates beyond 2^24 are not representable in float
+    if variant in PADDED and d != 3:
+        return False
     if variant == "fa":
-        return d == 3 and a != "Ray"
-    if variant == "i":
+        return a != "Ray"
+    if variant in ("i", "ia", "l"):
         if a in ("Xfm", "Ray"):
             return False
         if a == "Center" and case.get("cls") == "odd":
@@ -199,22 +221,29 @@ def nontrivial_key(case):
     return a + "|" + json.dumps(arg, sort_keys=True)
 
 
-def replay_group(chk, exe, cases, variant, tagx=""):
-    """Replay cases (all dimensions) on one element-type variant, one driver run per (operation family, dimension)."""
+def replay_group(chk, exe, cases, variant, vmap="id", select=None):
+    """Replay cases (all dimensions) on one element-type variant (and value map), one driver run per (operation family, dimension)."""
     total = 0
     by = {}
     for c in cases:
-        if not applicable(c, variant):
+        if not applicable(c, variant) or (select and not select(c)):
             continue
-        fam = "xfmBounds<%s%s>" % (TNAME[variant], ",aligned" if variant == "fa" else "") if c["a"] == "Xfm" else type_name(variant, c["d"])
+        if c["a"] == "Xfm":
+            fam = "xfmBounds<%s%s>" % (TNAME[variant], ",aligned" if variant in PADDED else "")
+        elif c["a"] == "MeasureBig":      # one family per element type (all dimensions): one signature per finding
+            fam = "range_t|box_t<%s%s>" % (TNAME[variant], ",aligned" if variant in PADDED else "")
+        else:
+            fam = type_name(variant, c["d"], vmap)
         by.setdefault(fam, []).append(strip(c))
+    meta = {"variant": variant} if vmap == "id" else {"variant": variant, "vmap": vmap}
     for fam, cs in sorted(by.items()):
-        n, wall = funcheck.replay_cases(chk, exe, cs, "c05-%s-%s%s" % (variant, "".join(ch for ch in fam if ch.isalnum()), tagx), fam,
-                                        meta={"variant": variant})
+        n, wall = funcheck.replay_cases(chk, exe, cs, "c05-%s-%s-%s" % (variant, vmap, "".join(ch for ch in fam if ch.isalnum())), fam, meta=meta)
         total += len(cs)
         keys = {nontrivial_key(c) for c in cs}
         keys.discard(None)
         chk.cov["distinct_nontrivial"] += len(keys)
+        chk.cov.setdefault("instantiations", {})
+        chk.cov["instantiations"][fam] = len(cs)
         chk.log("%s: %d cases evaluated (%d mismatching) in %.1fs" % (fam, len(cs), n, wall))
     return total
 
@@ -249,7 +278,8 @@ def validate_rays(chk, exe, cases, variant, tag, chunks=4):
         if r is None or "obs" not in r or not r["obs"] or "T0" not in r["obs"][0]:
             raise tla.InfraError("box driver gave no ray observation for case %d (rc=%s): %s %s" % (i, rc, r, stderr[-800:]))
         o = r["obs"][0]
-        obs.append({"id": i, "arg": c["arg"], "T0": o["T0"], "T1": o["T1"], "nan": o["nan"]})
+        obs.append({"id": i, "arg": c["arg"], "T0": o["T0"], "T1": o["T1"], "nan": o["nan"], "differs": bool(o.get("differs", False)),
+                    "empty": bool(o["empty"])})
     d = os.path.join(tla.WORK, "run", "c05-ray-" + tag)
     os.makedirs(d, exist_ok=True)
     parts = [obs[k::chunks] for k in range(chunks) if obs[k::chunks]]
@@ -284,7 +314,8 @@ def validate_rays(chk, exe, cases, variant, tag, chunks=4):
     chk.cov["ray_intervals_validated"] += len(cases)
     d_ = len(cases[0]["arg"]["org"])
     fam = "intersectRayBox<%s,%d>" % (TNAME[variant], d_)
-    chk.log("%s: %d recorded intervals validated by TLC (BoxRayValidate), %d rejected, %.1fs" % (fam, len(cases), len(rejected), time.time() - t0))
+    chk.log("%s%s: %d recorded intervals validated by TLC (BoxRayValidate), %d rejected, %.1fs"
+            % (fam, " against boxes without points" if tag.startswith("empty") else "", len(cases), len(rejected), time.time() - t0))
     for rj in rejected:
         c = cases[rj["id"]]
         o = res[rj["id"]]["obs"][0]
@@ -294,7 +325,11 @@ def validate_rays(chk, exe, cases, variant, tag, chunks=4):
                  "inf" if c["arg"]["thi2"] == 1000000 else c["arg"]["thi2"], o.get("t0"), o.get("t1"),
                  ("parameter %d/65536 is %s the box but %s the interval" % (rj["probe"], "in" if rj["hit"] else "outside",
                                                                             "outside" if rj["hit"] else "inside")) if rj["reason"] == "probe"
-                 else ("interval contains NaN" if rj["reason"] == "nan" else "the ray stays clear of the box but the interval is not empty")))
+                 else ("interval contains NaN" if rj["reason"] == "nan"
+                       else "the call relying on the default range [0, inf) returns a different interval than the call that spells it out"
+                       if rj["reason"] == "default-range-differs"
+                       else "the box has no points (empty / inverted) but the returned interval is not empty" if rj["reason"] == "box-without-points-hit"
+                       else "the ray stays clear of the box but the interval is not empty")))
         chk.violation(sig_of(fam, mm), what, {"kind": "ray", "property": chk.pid, "variant": variant, "case": strip(c), "observed": o, "report": rj})
     return len(rejected)
 
@@ -341,7 +376,7 @@ def rand_execution(rnd, d, n, R=20):
 def recorded_executions(chk, exe, variant, acts):
     chk.count_actions(acts)
     adtcheck.record_and_validate(chk, exe, SPEC, "BoxTrace", "BoxTrace.cfg", acts, "c05-trace-" + variant,
-                                 "box<%s>" % ("float,aligned" if variant == "fa" else TNAME[variant]), meta={"variant": variant})
+                                 "box<%s>" % (TNAME[variant] + ",aligned" if variant in PADDED else TNAME[variant]), meta={"variant": variant})
 
 
 # ---------------------------------------------------------------------------------------------
@@ -352,26 +387,34 @@ def run(chk, replay=None):
         "TLC enumerates the bounded lattices completely; all values are small integers, exactly representable in int / float / double",
         "the driver maps the model's +-1000000 to pos_inf / neg_inf of the element type and default-constructs a box with these bounds",
         "binary laws are claimed for non-empty operands and the default-constructed empty box; other empty (inverted) operands: contains, empty and emptiness of intersectionOf only",
-        "intersectRayBox: interval ends are recorded scaled by 2^16 and rounded; nothing is demanded within 2^-14 of a face (grazing rays unconstrained)",
+        "intersectRayBox: interval ends are recorded scaled by 2^16 and rounded; nothing is demanded within 2^-14 of a face (grazing rays unconstrained); "
+        "for a box without points the interval must be empty as decided by range_t::empty() of the returned value",
     ]
     if replay:
         return do_replay(chk, replay)
-    variants = ["i", "f", "fa"] if quick else VARIANTS           # double: thorough tier only
+    variants = ["i", "f", "fa", "ia"] if quick else VARIANTS + ["ia"]          # double: thorough tier only
+    mapped = MAPPED_QUICK if quick else MAPPED_THOROUGH
     ray_variants = ["f"] if quick else ["f", "d"]
 
     # phase A: build the driver, check the laws, generate the cases - all TLC runs in parallel
     t0 = time.time()
     jobs, rjobs = gen_jobs(quick), ray_jobs(quick)
-    fns = [lambda sub: build.build("drv_box"), lambda sub: model_check(sub)]
+    rjobs += [("rayempty", 2, -2, 3, "all", 0 if quick else 1), ("rayempty", 3, -1, 1, "all", 0 if quick else 1)]
+    # the law check runs alongside everything else and is joined before the verdict (it does not feed the cases)
+    mc_sub = Sub(chk)
+    mc_pool = ThreadPoolExecutor(max_workers=1)
+    mc_future = mc_pool.submit(model_check, mc_sub)
+    fns = [lambda sub: build.build("drv_box")]
     fns += [(lambda sub, j=j: run_gen(sub, j)) for j in rjobs + jobs]
     outs = parallel(chk, fns, workers=14)
     exe = outs[0]
-    rays_by_d = {}
-    for j, cs in zip(rjobs, outs[2:2 + len(rjobs)]):
-        rays_by_d.setdefault(j[1], []).extend(cs)
+    rays_by_d, empties_by_d = {}, {}
+    for j, cs in zip(rjobs, outs[1:1 + len(rjobs)]):
+        (empties_by_d if j[0] == "rayempty" else rays_by_d).setdefault(j[1], []).extend(cs)
     rays = [rays_by_d[d] for d in sorted(rays_by_d)]
-    cases = [c for cs in outs[2 + len(rjobs):] for c in cs]
-    chk.log("laws checked and %d cases + %d ray inputs generated in %.1fs" % (len(cases), sum(len(r) for r in rays), time.time() - t0))
+    rays_empty = [empties_by_d[d] for d in sorted(empties_by_d)]      # rays against boxes without points, per dimension
+    cases = [c for cs in outs[1 + len(rjobs):] for c in cs]
+    chk.log("%d cases + %d ray inputs generated in %.1fs" % (len(cases), sum(len(r) for r in rays + rays_empty), time.time() - t0))
 
     # vacuity guards: every operation and every class of input the statement names must be present
     ops = {}
@@ -381,7 +424,7 @@ def run(chk, replay=None):
     chk.cov["case_classes"] = ops
     need = {"Unary": ["empty-default", "inverted", "point", "flat", "solid"], "Points": ["empty-default", "inverted", "point", "flat", "solid"],
             "Center": ["even", "odd"], "Pair": ["a-empty", "b-empty", "both-empty", "equal", "apart", "touching", "nested", "overlapping"],
-            "PairInv": ["inverted-operand"], "Scale": ["flat", "solid"], "Translate": ["flat", "solid"], "Xfm": ["flat", "solid"]}
+            "PairInv": ["inverted-operand"], "Scale": ["flat", "solid"], "Translate": ["flat", "solid"], "Xfm": ["flat", "solid", "singular-map,solid"], "MeasureBig": ["beyond-2^24"]}
     for op, cl in need.items():
         for k in cl:
             if not ops.get(op, {}).get(k):
@@ -394,25 +437,76 @@ def run(chk, replay=None):
     for k in ["hit", "hit-from-inside", "hit-parallel", "miss", "miss-parallel", "graze"]:
         if not rcls.get(k):
             raise tla.InfraError("vacuity guard: no ray of class %s was generated" % k)
+    # boxes without points: at least 500 rays against each of the two kinds per dimension (every one is evaluated on every ray variant),
+    # default and explicit ranges, axis-parallel directions included
+    for rs in rays_empty:
+        d = rs[0]["d"]
+        for kind in ("empty-box-default", "empty-box-inverted"):
+            sel = [c for c in rs if c["cls"] == kind]
+            rcls["%s,d=%d" % (kind, d)] = len(sel)
+            if (len(sel) < 500 or not any(c["arg"]["thi2"] != 1000000 for c in sel) or not any(c["arg"]["thi2"] == 1000000 for c in sel)
+                    or not any(0 in c["arg"]["dir"] for c in sel)):
+                raise tla.InfraError("vacuity guard: too few rays against %s boxes in dimension %d (%d)" % (kind, d, len(sel)))
 
     # phase B: spec -> code replays, ray validation and recorded executions, in parallel
     nexec = 12 if quick else 120
-    fns = [(lambda sub, v=v: replay_group(sub, exe, cases, v)) for v in variants]
-    fns += [(lambda sub, v=v: xfm_tightness(sub, exe, cases, v)) for v in variants if v != "i"]
+    def base_select(v):
+        if v == "ia" and quick:      # padded int: everything in dimension 3 except the exhaustive pair lattice (the axis-pair covering stays)
+            return lambda c: not (c["a"] == "Pair" and c["mode"] == "all")
+        return None
+
+    for n, c in enumerate(cases):
+        c["n"] = n
+
+    def mapped_select(j):
+        """comparison-only operations.  quick: without the 3-D pair lattices; thorough: the 3-D axis-pair covering instead of the
+        exhaustive 3-D lattice, and of the large pair families every 4th case, rotating with the instantiation number j."""
+        def sel(c):
+            if c["a"] not in COMPARE_ONLY:
+                return False
+            if c["a"] == "Pair" and c["d"] == 3 and (quick or c["mode"] == "all"):
+                return False
+            if not quick and c["a"] != "Points" and c["d"] >= 2:
+                return (c["n"] + j) % 4 == 0
+            return True
+        return sel
+
+    fns = [(lambda sub, v=v: replay_group(sub, exe, cases, v, select=base_select(v))) for v in variants]
+    fns += [(lambda sub, t=t, m=m, j=j: replay_group(sub, exe, cases, t, vmap=m, select=mapped_select(j))) for j, (t, m) in enumerate(mapped)]
+    # integer coordinates beyond 2^24 on the wide types that are not among the base variants of this tier
+    fns += [(lambda sub, v=v: replay_group(sub, exe, cases, v, select=lambda c: c["a"] == "MeasureBig")) for v in (["l", "d"] if quick else ["l"])]
+    fns += [(lambda sub, v=v: xfm_tightness(sub, exe, cases, v)) for v in variants if v not in ("i", "ia")]
+    for rs in rays_empty:           # float AND double in both tiers
+        for v in ("f", "d"):
+            fns.append(lambda sub, rs=rs, v=v: validate_rays(sub, exe, rs, v, "empty-%s-%d" % (v, rs[0]["d"]), chunks=2))
     for rs in rays:
         for v in ray_variants:
             fns.append(lambda sub, rs=rs, v=v: validate_rays(sub, exe, rs, v, "%s-%d" % (v, rs[0]["d"]), chunks=3 if quick else 6))
     trace_acts = {}
     for v in variants:
-        trace_acts[v] = [rand_execution(rnd, 3 if v == "fa" else 1 + (k % 4), 200) for k in range(nexec)]
+        trace_acts[v] = [rand_execution(rnd, 3 if v in PADDED else 1 + (k % 4), 200) for k in range(nexec)]
         fns.append(lambda sub, v=v: recorded_executions(sub, exe, v, trace_acts[v]))
     parallel(chk, fns, workers=8 if quick else 5)
+    try:
+        mc_future.result()           # InfraError if the specification's own laws do not hold
+    finally:
+        mc_pool.shutdown(wait=True)
+        mc_sub.merge()
 
-    chk.require_actions(["Unary", "Center", "Points", "Pair", "PairInv", "Scale", "Translate", "Xfm"])
+    chk.require_actions(["Unary", "Center", "Points", "Pair", "PairInv", "Scale", "Translate", "Xfm", "MeasureBig"])
+    inst = chk.cov.get("instantiations", {})
+    for t, m in mapped:              # vacuity guard: every (element type, value map) instantiation was exercised in dimension 3
+        if not inst.get(type_name(t, 3, m)):
+            raise tla.InfraError("vacuity guard: instantiation %s was not exercised" % type_name(t, 3, m))
+    for fam in ("range_t<int>", "box_t<int,3,aligned>", "range_t|box_t<int64>", "range_t|box_t<int>", "range_t|box_t<double>"):
+        if not inst.get(fam):
+            raise tla.InfraError("vacuity guard: instantiation %s was not exercised" % fam)
     chk.require_actions(["New", "ExtendPt", "ExtendBox", "Intersect", "Translate1", "Scale1", "ContainsQ", "ClampQ", "Measure", "Relate", "Clear"])
     for rs in rays:
         keys = {json.dumps(c["arg"], sort_keys=True) for c in rs if c["cls"] not in ("miss-parallel",)}
         chk.cov["distinct_nontrivial"] += len(ray_variants) * len(keys)
+    for rs in rays_empty:
+        chk.cov["distinct_nontrivial"] += 2 * len({json.dumps(c["arg"], sort_keys=True) for c in rs})
     chk.add_sample({"kind": "case", "case": strip(next(c for c in cases if c["a"] == "Pair" and c["cls"] == "touching" and c["d"] == 3))})
     chk.add_sample({"kind": "case", "case": strip(next(c for c in cases if c["a"] == "Xfm" and c["cls"] == "solid"))})
     chk.add_sample({"kind": "ray-input", "case": strip(next(c for c in rays[-1] if c["cls"] == "hit"))})
@@ -422,7 +516,8 @@ def run(chk, replay=None):
     chk.cov["rule"] = ("cases = every input of the bounded lattices enumerated by TLC at constant level (all boxes incl. inverted and the default empty box "
                        "against all lattice points; all ordered pairs of proper boxes; pairs with an inverted operand; non-empty boxes x scale / "
                        "translation vectors; affine maps x boxes; rays = origins x directions x boxes x ranges), evaluated per element-type "
-                       "instantiation (int, float, padded float; double in the thorough tier); distinct = distinct (operation, arguments) per "
+                       "instantiation (int, float, padded float, padded int; double in the thorough tier; the comparison-only operations also on "
+                       "int64 / uint32 / int16 / uint8 and under strictly increasing value maps: type limits, 2^24, sign bits, non-dyadic, subnormal, huge); distinct = distinct (operation, arguments) per "
                        "instantiation with the two operands of a pair unordered; non-trivial = not (both operands empty or equal), not the unary "
                        "case of the default empty box, not a ray whose stationary axis lies outside its slab; exhaustive refers to these lattices - "
                        "the recorded random executions and the thorough tier's axis-pair covering in dimensions 3/4 are samples on top")
